@@ -10,9 +10,11 @@ pub fn any_buffer(size: usize) -> Box<[u8]> {
   v.into_boxed_slice()
 }
 
-/// Contract stub for `system::get_rom_buffer` (mmap of the ROM file): a buffer
-/// of exactly the requested size with arbitrary contents.
-pub fn stub_get_rom_buffer(_f: &mut File, size: usize) -> Box<[u8]> { any_buffer(size) }
+/// Contract stub for `system::get_rom_buffer` (mmap of the ROM file): a zeroed
+/// buffer of exactly the requested size.  Harnesses poke `kani::any()` bytes at
+/// the indexes the reference model says must be read (a wrong index then reads
+/// a different byte), which keeps counterexamples replayable natively.
+pub fn stub_get_rom_buffer(_f: &mut File, size: usize) -> Box<[u8]> { vec![0u8; size].into_boxed_slice() }
 
 /// `mem::create_buffer(size)`: the real one pushes `size` zero bytes in a loop;
 /// the stub allocates the same zeroed buffer without the loop.
@@ -23,10 +25,24 @@ pub fn stub_create_buffer_any(size: usize) -> Box<[u8]> { any_buffer(size) }
 
 pub fn stub_lcd_new() -> crate::devices::video::lcd::LCD { crate::devices::video::lcd::LCD::verif_new() }
 
-/// A `File` value that is never used for I/O (all file access is stubbed).
+/// Under Kani: a `File` value that is never used for I/O (all file access is
+/// stubbed).  In the native replay build (no stubs): a real, unlinked, sparse
+/// 8 MiB temporary file, so that the REAL loader (`mmap`) runs.
+#[cfg(not(verif_playback))]
 pub fn dummy_file() -> File {
   use std::os::unix::io::FromRawFd;
   unsafe { File::from_raw_fd(3) }
+}
+#[cfg(verif_playback)]
+pub fn dummy_file() -> File {
+  use std::sync::atomic::{AtomicUsize, Ordering};
+  static N: AtomicUsize = AtomicUsize::new(0);
+  let mut p = std::env::temp_dir();
+  p.push(format!("gbdv-replay-{}-{}.rom", std::process::id(), N.fetch_add(1, Ordering::SeqCst)));
+  let f = std::fs::OpenOptions::new().read(true).write(true).create(true).truncate(true).open(&p).expect("temp rom");
+  f.set_len(8 << 20).expect("set_len");
+  let _ = std::fs::remove_file(&p);
+  f
 }
 
 // ---- stdout recorder (serial port, diagnostics) ----
